@@ -173,9 +173,29 @@ impl Z for String {
         "string".into()
     }
     fn gen_(rng: &mut Rng, _d: usize) -> Self {
-        match rng.below(8) {
+        match rng.below(10) {
             0 => String::new(),
             1 => rng.pick(&["a", "b", "A", "0", "1", "true", "x", "key", "none", "é"]).to_string(),
+            // around the 21-byte inline limit of tera's SmartString: 15..=30 chars of one width class
+            // or mixed widths, and texts of exactly 20 / 21 / 22 / 23 bytes
+            2 => {
+                let w = *rng.pick(&['a', 'é', 'я', '中', '😀']);
+                std::iter::repeat_n(w, 1 + rng.below(26)).collect()
+            }
+            3 => (0..8 + rng.below(20)).map(|_| gen_char(rng)).collect(),
+            4 => {
+                let target = 19 + rng.below(6);
+                let mut t = String::new();
+                while t.len() < target {
+                    let c = gen_char(rng);
+                    if t.len() + c.len_utf8() <= target {
+                        t.push(c);
+                    } else {
+                        t.push('x');
+                    }
+                }
+                t
+            }
             _ => (0..rng.below(6)).map(|_| gen_char(rng)).collect(),
         }
     }
@@ -732,7 +752,20 @@ fn cross_reads(v: &Value, out: &mut Out) {
     one::<CString>(v, out);
 }
 
+/// `run_value_inner` with every panic turned into an observation: also code that merely LOOKS at a
+/// converted value (`Key::as_value`, `Display`, lookups) belongs to the engine
 fn run_value<T: Z>(tera: &Tera, x: &T, cross: bool) -> Out {
+    match catch(std::panic::AssertUnwindSafe(|| run_value_inner(tera, x, cross))) {
+        Ok(o) => o,
+        Err(p) => {
+            let mut o = Out::default();
+            o.fails.push(format!("panic while converting / inspecting / printing {x:?}: {p}"));
+            o
+        }
+    }
+}
+
+fn run_value_inner<T: Z>(tera: &Tera, x: &T, cross: bool) -> Out {
     let mut out = Out::default();
     let sv = x.sval();
     let ty = T::ty();
@@ -863,6 +896,13 @@ fn run_value<T: Z>(tera: &Tera, x: &T, cross: bool) -> Out {
         out.model.push((fmt_request(&v), imp, "print"));
     }
     // integers print exactly as Rust prints them
+    // a string prints as itself, byte for byte
+    if let Some(h) = sv.strip_prefix("s:") {
+        out.checks += 1;
+        if p2 != format!("ok {}", if h.is_empty() { "-" } else { h }) {
+            out.fails.push(format!("the string {x:?} prints as {p2}"));
+        }
+    }
     if let Some(rest) = sv.strip_prefix("i:") {
         let dec = rest.split(':').nth(1).unwrap();
         out.checks += 1;
@@ -1157,10 +1197,34 @@ fn run_values(tera: &Tera, seed: u64, n: usize) -> TypeRun {
     for v in fixed {
         outs.push((encode(&v), run_value_level(tera, &v)));
     }
+    // constructing a Value is itself code under study (`Value::from(&str)`, `safe_string`, `Key::from`):
+    // a panic there is an observation, not a crash of the harness
+    let mut guarded = |desc: String, mk: &mut dyn FnMut() -> Value| {
+        match catch(std::panic::AssertUnwindSafe(|| {
+            let v = mk();
+            (encode(&v), run_value_level(tera, &v))
+        })) {
+            Ok(r) => outs.push(r),
+            Err(p) => {
+                let mut o = Out::default();
+                o.fails.push(format!("building / converting the value panicked ({desc}): {p}"));
+                outs.push((desc, o));
+            }
+        }
+    };
+    for t in boundary_strings() {
+        guarded(format!("s:{}", hex(t.as_bytes())), &mut || Value::from(t.as_str()));
+        guarded(format!("S:{}", hex(t.as_bytes())), &mut || Value::safe_string(&t));
+        guarded(format!("M1 s:{} s:{}", hex(t.as_bytes()), hex(t.as_bytes())), &mut || {
+            let mut m = tera::Map::new();
+            m.insert(Key::from(t.clone()), Value::from(vec![Value::from(t.as_str())]));
+            Value::from(m)
+        });
+    }
     for i in 0..n {
         let d = 1 + rng.below(3);
-        let v = rand_value_v(&mut rng, d, i % 5 != 0);
-        outs.push((encode(&v), run_value_level(tera, &v)));
+        let mut r2 = rng.fork();
+        guarded(format!("random value #{i}"), &mut || rand_value_v(&mut r2, d, i % 5 != 0));
     }
     TypeRun { name: "tera::Value", ty: "value".into(), in_family: false, outs }
 }
@@ -1259,7 +1323,12 @@ fn run_args(seed: u64, n: usize) -> TypeRun {
     macro_rules! rt {
         ($t:ty, $name:expr, $x:expr, $m:expr) => {{
             let x: $t = $x;
-            outs.push((format!("{} {}", $name, x.sval()), arg_roundtrip::<$t>(&x, $name, $m)));
+            let o = catch(std::panic::AssertUnwindSafe(|| arg_roundtrip::<$t>(&x, $name, $m))).unwrap_or_else(|p| {
+                let mut o = Out::default();
+                o.fails.push(format!("panic in the typed readers for {x:?}: {p}"));
+                o
+            });
+            outs.push((format!("{} {}", $name, x.sval()), o));
         }};
     }
     // floats: ±inf, NaN, ±0.0, subnormals, MAX, the edge of f32's range
@@ -1307,6 +1376,17 @@ fn run_args(seed: u64, n: usize) -> TypeRun {
 /// Several writes under ONE key through every construction path; after every step the binding
 /// must be what a context built with `insert_value` alone holds (kind tree and rendering).
 fn ctx_history(tera: &Tera, steps: &[(usize, Value)]) -> (String, Out) {
+    match catch(std::panic::AssertUnwindSafe(|| ctx_history_inner(tera, steps))) {
+        Ok(r) => r,
+        Err(p) => {
+            let mut o = Out::default();
+            o.fails.push(format!("panic during a context history of {} steps: {p}", steps.len()));
+            ("hist (panic)".into(), o)
+        }
+    }
+}
+
+fn ctx_history_inner(tera: &Tera, steps: &[(usize, Value)]) -> (String, Out) {
     let mut out = Out::default();
     let mut ctx = Context::new();
     let mut reference = Context::new();
@@ -1370,14 +1450,24 @@ fn run_ctx_histories(tera: &Tera, seed: u64, n: usize) -> TypeRun {
     }
     for _ in 0..n {
         let len = 2 + rng.below(3);
-        let steps: Vec<(usize, Value)> = (0..len)
-            .map(|_| {
-                let p = if rng.chance(1, 10) { 4 } else { rng.below(4) };
-                let d = rng.below(3);
-                (p, rand_value_v(&mut rng, d, true))
-            })
-            .collect();
-        outs.push(ctx_history(tera, &steps));
+        let mut r2 = rng.fork();
+        match catch(std::panic::AssertUnwindSafe(|| {
+            let steps: Vec<(usize, Value)> = (0..len)
+                .map(|_| {
+                    let p = if r2.chance(1, 10) { 4 } else { r2.below(4) };
+                    let d = r2.below(3);
+                    (p, rand_value_v(&mut r2, d, true))
+                })
+                .collect();
+            ctx_history(tera, &steps)
+        })) {
+            Ok(r) => outs.push(r),
+            Err(p) => {
+                let mut o = Out::default();
+                o.fails.push(format!("building a value for a context history panicked: {p}"));
+                outs.push(("hist (panic while building)".into(), o));
+            }
+        }
     }
     TypeRun { name: "tera::Context (histories)", ty: "context".into(), in_family: true, outs }
 }
@@ -1407,7 +1497,49 @@ fn run_fixed<T: Z>(tera: &Tera, xs: Vec<T>) -> TypeRun {
 
 /// regression values: F9 (top-level Option / enum through `&Value`), F11 (newtype structs: `W(5)`
 /// was refused, `WV([[],[1]])` came back as `WV([])`), widths' extremes, the one-char / empty strings
+/// every seed: for each UTF-8 width (1, 2, 2, 3, 4 bytes per char) every length 1..=24 chars — the
+/// window where char count and byte count fall on different sides of the 21-byte inline limit of
+/// the engine's string representation — plus mixed-width texts of 19..=24 bytes
+fn boundary_strings() -> Vec<String> {
+    let mut out = Vec::new();
+    for w in ['a', 'é', 'я', '中', '😀'] {
+        for n in 1..=24 {
+            out.push(std::iter::repeat_n(w, n).collect::<String>());
+        }
+    }
+    for n in 19..=24usize {
+        let mut t = String::from("é中😀"); // 9 bytes
+        while t.len() < n {
+            t.push('x');
+        }
+        out.push(t);
+    }
+    out
+}
+
 fn fixed_runs(tera: &Tera) -> Vec<TypeRun> {
+    let bs = boundary_strings();
+    let mut runs = vec![
+        // the boundary strings in every position: bare, newtype, Option, nested sequence, tuple,
+        // struct field, map key, map value, enum payloads (newtype / tuple / struct variant), char-keyed
+        run_fixed::<String>(tera, bs.clone()),
+        run_fixed::<WS>(tera, bs.iter().map(|t| WS(t.clone())).collect()),
+        run_fixed::<Option<String>>(tera, bs.iter().map(|t| Some(t.clone())).collect()),
+        run_fixed::<Vec<Vec<String>>>(tera, bs.iter().map(|t| vec![vec![t.clone(), String::new()], vec![t.clone()]]).collect()),
+        run_fixed::<(u8, String)>(tera, bs.iter().map(|t| (1, t.clone())).collect()),
+        run_fixed::<S1>(tera, bs.iter().map(|t| S1 { a: 1, b: t.clone(), c: true }).collect()),
+        run_fixed::<BTreeMap<String, i64>>(tera, bs.iter().map(|t| BTreeMap::from([(t.clone(), 1), ("k".to_string(), 2)])).collect()),
+        run_fixed::<HashMap<String, Vec<Option<i64>>>>(tera, bs.iter().map(|t| HashMap::from([(t.clone(), vec![Some(1)])])).collect()),
+        run_fixed::<BTreeMap<u8, String>>(tera, bs.iter().map(|t| BTreeMap::from([(7u8, t.clone())])).collect()),
+        run_fixed::<E2>(tera, bs.iter().flat_map(|t| [E2::Text(t.clone()), E2::Mixed(t.clone(), Some(true)), E2::Point { x: 1, y: 2, label: Some(t.clone()) }]).collect()),
+        run_fixed::<S3>(tera, bs.iter().map(|t| { let i = S1 { a: 0, b: t.clone(), c: false }; S3 { inner: i.clone(), list: vec![i.clone()], w: W(1), opt: Some(i) } }).collect()),
+        run_fixed::<BTreeMap<String, E3>>(tera, bs.iter().map(|t| BTreeMap::from([(t.clone(), E3::St(S1 { a: 0, b: t.clone(), c: false }))])).collect()),
+    ];
+    runs.extend(fixed_runs_regression(tera));
+    runs
+}
+
+fn fixed_runs_regression(tera: &Tera) -> Vec<TypeRun> {
     vec![
         run_fixed::<W>(tera, vec![W(5), W(i64::MIN)]),
         run_fixed::<WV>(tera, vec![WV(vec![vec![], vec![1]]), WV(vec![vec![]]), WV(vec![]), WV(vec![vec![1], vec![2]])]),
@@ -1475,7 +1607,9 @@ impl Ord for E1 {
 impl Eq for E1 {}
 
 fn main() {
-    quiet_panics();
+    if std::env::var("VERIF_LOUD_PANICS").is_err() {
+        quiet_panics();
+    }
     let env = Env::from_env();
     let mut report = Report::new("C19");
     let tera = engine();
